@@ -16,7 +16,7 @@ from .kernel import H, Sim, Violation
 from .scenarios import BaseScenario
 from .snapshot import ustr
 
-KINDS = {"add_data": 8, "set_values": 6, "rm_vertices": 7, "rm_cells": 5, "masked_copy": 4, "data_masked_copy": 3, "bad_call": 3, "gc": 3, "reopen": 4, "reopen_same": 1, "switch": 2}
+KINDS = {"add_data": 8, "set_values": 6, "rm_vertices": 7, "rm_cells": 5, "masked_copy": 4, "data_masked_copy": 3, "cross_assign": 5, "bad_call": 3, "gc": 3, "reopen": 4, "reopen_same": 1, "switch": 2}
 DKINDS = ["float", "integer", "boolean", "text", "referenced"]
 
 
@@ -267,7 +267,7 @@ class GeometryScenario(BaseScenario):
                     if isinstance(outcome, tuple):
                         ws, outcome = outcome
                     sim.drain_warnings()
-                    if kind in ("add_data", "set_values", "rm_vertices", "rm_cells", "masked_copy") and outcome == "ok":
+                    if kind in ("add_data", "set_values", "rm_vertices", "rm_cells", "masked_copy", "cross_assign") and outcome == "ok":
                         n_mut += 1
                         last_mut = True
                     elif kind in ("gc", "reopen", "reopen_same"):
@@ -355,6 +355,38 @@ class GeometryScenario(BaseScenario):
         obj.data[name] = {"assoc": assoc, "dkind": dkind, "values": {t: (vals[i] if i < length else fill) for i, t in enumerate(order)}}
         if length < n:
             sim.probe("short_padded")
+        return "ok"
+
+    def do_cross_assign(self, sim, ws, w, obj, r, cfg, path):
+        """The array read from one data set assigned to another of the same association (a caller copying values across):
+        the source keeps what it had, whatever the receiving setter does with the array it is handed."""
+        srcs = [n for n, d in obj.data.items() if d["dkind"] == "float" and d["values"] is not None and n not in ("tagV", "tagC")]
+        if not srcs:
+            return "skipped"
+        # prefer a source with no-data entries (a padded one)
+        gaps = [n for n in srcs if any(v == "nan" for v in obj.data[n]["values"].values())]
+        src = (gaps or srcs)[r.randrange(len(gaps or srcs))]
+        dsts = [n for n, d in obj.data.items() if d["dkind"] in ("integer", "float") and d["assoc"] == obj.data[src]["assoc"] and n != src and n not in ("tagV", "tagC")
+                and d["values"] is not None]
+        if not dsts:
+            return "skipped"
+        ints = [n for n in dsts if obj.data[n]["dkind"] == "integer"]
+        dst = (ints or dsts)[r.randrange(len(ints or dsts))]
+        order = obj.vtags if obj.data[src]["assoc"] == "VERTEX" else obj.ctags
+        ent = self.ent(ws, obj)
+        s_ent, d_ent = ent.get_data(src)[0], ent.get_data(dst)[0]
+        try:
+            d_ent.values = s_ent.values
+            raised = None
+        except Exception as err:  # pylint: disable=broad-except
+            raised = type(err).__name__
+        del s_ent, d_ent, ent
+        sim.probe("cross_assign" + ("_with_gaps" if gaps else ""))
+        if raised is not None:
+            return "refused:" + raised
+        kind = obj.data[dst]["dkind"]
+        obj.data[dst]["values"] = {t: (FILL[kind] if obj.data[src]["values"][t] == "nan" else (int(obj.data[src]["values"][t]) if kind == "integer" else obj.data[src]["values"][t]))
+                                   for t in order}
         return "ok"
 
     def do_set_values(self, sim, ws, w, obj, r, cfg, path):
